@@ -144,16 +144,37 @@ func c20DriverCLI(d *fw.D) {
 		// sequence handed to map with load-file as the callback, after this
 		// location (relative to nestDir, a file of another directory)
 		pre string
+		// str: the nested loader loads every location from string-sourced code,
+		// (load-string "(load-file \"LOCATION\")" :name "LABEL") with a stream
+		// name drawn from the layout's label pool, and once more under the
+		// control name
+		str bool
+	}
+	// stream names of the string-sourced loads, drawn per location
+	type strName struct{ class, text string }
+	strNames := map[string]strName{}
+	{
+		r := d.RNG(0, "cli-strlabels")
+		for _, loc := range locs {
+			for {
+				class, text := l.StrLabel(r)
+				if !strings.ContainsAny(text, "\"\\") {
+					strNames[loc] = strName{class, text}
+					break
+				}
+			}
+		}
 	}
 	sub := l.RootRel + "/sub"
 	cfgs := []cfg{
-		{"--root-dir=abs,-e", []string{"run", "--root-dir", rootAbs, "-p", "-e"}, base, rootAbs, "", ""},
-		{"--root-dir=abs,file-in-sub", []string{"run", "--root-dir", rootAbs, "-p"}, base, rootAbs, sub, ""},
-		{"default-root=cwd,-e", []string{"run", "-p", "-e"}, rootAbs, rootAbs, "", ""},
-		{"--root-dir=symlink,-e", []string{"run", "--root-dir", l.FSRoots[len(l.FSRoots)-1].Path, "-p", "-e"}, base, l.FSRoots[len(l.FSRoots)-1].Path, "", ""},
-		{"--root-dir=relative,file-in-root", []string{"run", "--root-dir", l.RootRel, "-p"}, base, rootAbs, l.RootRel, ""},
-		{"--root-dir=abs,seq-file-in-sub", []string{"run", "--root-dir", rootAbs, "-p"}, base, rootAbs, sub, "deep/c.lisp"},
-		{"default-root=cwd,seq-file-in-root", []string{"run", "-p"}, rootAbs, rootAbs, l.RootRel, "sub/b.lisp"},
+		{"--root-dir=abs,-e", []string{"run", "--root-dir", rootAbs, "-p", "-e"}, base, rootAbs, "", "", false},
+		{"--root-dir=abs,file-in-sub", []string{"run", "--root-dir", rootAbs, "-p"}, base, rootAbs, sub, "", false},
+		{"default-root=cwd,-e", []string{"run", "-p", "-e"}, rootAbs, rootAbs, "", "", false},
+		{"--root-dir=symlink,-e", []string{"run", "--root-dir", l.FSRoots[len(l.FSRoots)-1].Path, "-p", "-e"}, base, l.FSRoots[len(l.FSRoots)-1].Path, "", "", false},
+		{"--root-dir=relative,file-in-root", []string{"run", "--root-dir", l.RootRel, "-p"}, base, rootAbs, l.RootRel, "", false},
+		{"--root-dir=abs,seq-file-in-sub", []string{"run", "--root-dir", rootAbs, "-p"}, base, rootAbs, sub, "deep/c.lisp", false},
+		{"default-root=cwd,seq-file-in-root", []string{"run", "-p"}, rootAbs, rootAbs, l.RootRel, "sub/b.lisp", false},
+		{"--root-dir=abs,string-in-file-in-sub", []string{"run", "--root-dir", rootAbs, "-p"}, base, rootAbs, sub, "", true},
 	}
 	run := func(c cfg, args []string) (string, string, error) {
 		ctx, cancel := context.WithTimeout(context.Background(), 2*time.Minute)
@@ -172,6 +193,11 @@ func c20DriverCLI(d *fw.D) {
 		ck.keySuffix = ""
 		if c.pre != "" {
 			ck.keySuffix = "@seq:map-list"
+		}
+		if c.str {
+			sn := strNames[loc]
+			ck.keySuffix = "@str:" + sn.class
+			ck.strBy, ck.strLabel, ck.strClass = "load-string", sn.text, sn.class
 		}
 		lb := &c20Lib{kind: "cli-run", family: "cli-run", spec: c.label, label: "elps " + strings.Join(c.args, " "), isFS: true, fsRoot: c.fsRoot,
 			lib: &lisp.FSLibrary{}}
@@ -229,6 +255,16 @@ func c20DriverCLI(d *fw.D) {
 							sb.WriteString(` (ignore-errors (nth (map 'list load-file '("` + c.pre + `" "` + loc + `")) 1))`)
 							continue
 						}
+						if c.str {
+							for _, name := range []string{strNames[loc].text, sandbox.StrControlLabel} {
+								if name == "" {
+									sb.WriteString(` (ignore-errors (load-string "(load-file \"` + loc + `\")"))`)
+									continue
+								}
+								sb.WriteString(` (ignore-errors (load-string "(load-file \"` + loc + `\")" :name "` + name + `"))`)
+							}
+							continue
+						}
 						sb.WriteString(` (ignore-errors (load-file "` + loc + `"))`)
 					}
 					sb.WriteString(")\n")
@@ -245,6 +281,31 @@ func c20DriverCLI(d *fw.D) {
 					toks = c20TokRe.FindAllString(so, -1)
 					ld = &sandbox.Loader{Label: "cli-file-in-" + filepath.Base(c.nestDir), Spelled: c.nestDir + "/" + name, CtxDirs: []string{c.nestDir}}
 					entry = "elps-run file + nested (load-file)"
+					if c.str {
+						// string-sourced code has no loading file: the oracle reads the
+						// location like a top-level one (c20StrDirect)
+						ld.Label = "cli-str-file-in-" + filepath.Base(c.nestDir)
+						ld.StrShape = "load-string"
+						entry = "elps-run file + (load-string \"(load-file LOCATION)\" :name LABEL)"
+						d.Count("cli_loads_from_string", int64(len(part)))
+						// every location was loaded twice: under the drawn name and under the control name
+						if len(toks) == 2*len(part) {
+							var first []string
+							for i, loc := range part {
+								first = append(first, toks[2*i])
+								if toks[2*i] != toks[2*i+1] {
+									sn := strNames[loc]
+									mu.Lock()
+									ck.keySuffix = "@str:" + sn.class
+									ck.report("cli-run:result-depends-on-stream-name", fmt.Sprintf("elps %s: a file in %s evaluates (load-string \"(load-file \\\"%s\\\")\" :name NAME): with the stream name %q (%s) the value is %s, with the stream name %q it is %s", strings.Join(c.args, " "), c.nestDir, loc, sn.text, sn.class, toks[2*i], sandbox.StrControlLabel, toks[2*i+1]),
+										func() string { return "file: " + p + "\n" })
+									ck.keySuffix = ""
+									mu.Unlock()
+								}
+							}
+							toks = first
+						}
+					}
 					if c.pre != "" {
 						ld.Label = "cli-seq-file-in-" + filepath.Base(c.nestDir)
 						entry = "elps-run file + nested (map 'list load-file '(" + c.pre + " LOCATION))"
